@@ -1785,7 +1785,7 @@ def run(ctx):
     try:
         r = outgoing_thread_oracle()
         ctx.case(('outgoing_thread_oracle',), nontrivial=True)
-        if r and (not r['client_closed'] or r['errors']):
+        if r and (r['errors'] or (not r['running'] and not r['client_closed'])):
             ctx.violation(dict(leg='oracle', call='send_outgoing', symptom='shutdown_from_outgoing_thread_aborts'),
                           dict(topology='server+2 workers+1 client', event='ConnectionResetError raised by send() in send_outgoing'),
                           'handle_disconnect => complete handle_shutdown (client connections closed)', r,
@@ -1859,7 +1859,7 @@ def replay(ctx, data):
         return
     r = outgoing_thread_oracle()
     ctx.case(('outgoing_thread_oracle',))
-    if r and (not r['client_closed'] or r['errors']):
+    if r and (r['errors'] or (not r['running'] and not r['client_closed'])):
         ctx.violation(dict(leg='oracle', call='send_outgoing', symptom='shutdown_from_outgoing_thread_aborts'), case,
                       data.get('expected'), r, 'still reproduces')
 
